@@ -1,9 +1,32 @@
 From Coq Require Import ZArith List Bool.
-From RV Require Import Base.Wire Base.Text Gen.Registry Tool.Registry.
+From RV Require Import Base.Wire Base.Text Gen.Registry Tool.Registry Tool.Ini.
 Import ListNotations.
 Open Scope Z_scope.
 
-(* case 0: (0 platform board) -> validate *)
+Fixpoint un_texts (l : list wv) : option (list text) :=
+  match l with
+  | [] => Some []
+  | v :: r => match un_text v, un_texts r with
+              | Some t, Some ts => Some (t :: ts)
+              | _, _ => None
+              end
+  end.
+
+(* sections as ((name ((key value) ...)) ...); a parse error as () - a successful read of a
+   rendered file always has at least one section, and case 4 tags the two outcomes apart *)
+Definition wsections (o : option (list (text * list (text * text)))) : wv :=
+  match o with
+  | None => WL []
+  | Some secs =>
+      WL (map (fun so => WL [wtext (fst so);
+                             WL (map (fun kv => WL [wtext (fst kv); wtext (snd kv)]) (snd so))]) secs)
+  end.
+
+(* case 0: (0 platform board)                    -> validate
+   case 1: (1 port platform board (lib ...))     -> (0 ini_text sections) | (1 kind) for an invalid pair
+   case 2: (2 (lib ...))                         -> (0 lib_section_text)
+   case 3: (3 board)                             -> (0 env_name)
+   case 4: (4 ini_text)                          -> (0 sections) | (1 0) when the read raises *)
 Definition run (v : wv) : wv :=
   match v with
   | WL [WI 0; p; b] =>
@@ -11,6 +34,33 @@ Definition run (v : wv) : wv :=
       | Some pl, Some bd =>
           match validate pl bd with None => wok [] | Some e => werr (verr_code e) end
       | _, _ => wbad
+      end
+  | WL [WI 1; port; p; b; WL libs] =>
+      match un_text port, un_text p, un_text b, un_texts libs with
+      | Some port, Some pl, Some bd, Some ls =>
+          match write_ini pl bd port ls with
+          | inl e => werr (verr_code e)
+          | inr t => wok [wtext t; wsections (ini_read t)]
+          end
+      | _, _, _, _ => wbad
+      end
+  | WL [WI 2; WL libs] =>
+      match un_texts libs with
+      | Some ls => wok [wtext (format_lib_section ls)]
+      | None => wbad
+      end
+  | WL [WI 3; b] =>
+      match un_text b with
+      | Some bd => wok [wtext (sanitize_env_name bd)]
+      | None => wbad
+      end
+  | WL [WI 4; t] =>
+      match un_text t with
+      | Some t => match ini_read t with
+                  | Some secs => wok [wsections (Some secs)]
+                  | None => werr 0
+                  end
+      | None => wbad
       end
   | _ => wbad
   end.
